@@ -69,3 +69,27 @@ package cli
 //@ loop 1 invariant forall(i, 0, rangeindex+1, 0 <= dcnt(records, klog.ddn(today), i) && dcnt(records, klog.ddn(today), i) <= len(todaysRecords) && implies(klog.ddn(rdate(records[i])) == klog.ddn(today), dcnt(records, klog.ddn(today), i) < len(todaysRecords) && todaysRecords[dcnt(records, klog.ddn(today), i)] == records[i]))
 //@ loop 1 invariant forall(i, 0, rangeindex+1, 0 <= dcnt(records, klog.ddn(today) - 1, i) && dcnt(records, klog.ddn(today) - 1, i) <= len(yesterdaysRecords) && implies(klog.ddn(rdate(records[i])) == klog.ddn(today) - 1, dcnt(records, klog.ddn(today) - 1, i) < len(yesterdaysRecords) && yesterdaysRecords[dcnt(records, klog.ddn(today) - 1, i)] == records[i]))
 //@ loop 1 invariant forall(i, 0, rangeindex+1, 0 <= ocnt(records, klog.ddn(today), klog.ddn(today) - 1, i) && ocnt(records, klog.ddn(today), klog.ddn(today) - 1, i) <= len(otherRecords) && implies(klog.ddn(rdate(records[i])) != klog.ddn(today) && klog.ddn(rdate(records[i])) != klog.ddn(today) - 1, ocnt(records, klog.ddn(today), klog.ddn(today) - 1, i) < len(otherRecords) && otherRecords[ocnt(records, klog.ddn(today), klog.ddn(today) - 1, i)] == records[i]))
+
+// ---------------------------------------------------------------------------------------------
+// bookmarks.go — property C19: what each command does to the collection it is handed by ManipulateBookmarks.
+
+// set: adds or overwrites exactly the entry of the bookmark's name (and notes whether it existed); never fails.
+//@ func (*BookmarksSet).Run$2
+//@ requires typeis(bc, *app.bookmarksCollection) && nonnil(bc.(*app.bookmarksCollection).bookmarks) && typeis(bookmark, *app.bookmark)
+//@ noframe
+//@ ensures isnil(result) && mapput(bc.(*app.bookmarksCollection).bookmarks, bookmark.(*app.bookmark).name, bookmark)
+//@ ensures didBookmarkAlreadyExist == old(nonnil(bc.(*app.bookmarksCollection).bookmarks[bookmark.(*app.bookmark).name]))
+
+// unset: removes exactly the named entry; for an unknown name it fails and changes nothing.
+//@ func (*BookmarksUnset).Run$1
+//@ requires typeis(bc, *app.bookmarksCollection) && nonnil(bc.(*app.bookmarksCollection).bookmarks) && (haskey(bc.(*app.bookmarksCollection).bookmarks, name) == nonnil(bc.(*app.bookmarksCollection).bookmarks[name]))
+//@ noframe
+//@ ensures isnil(result) == old(haskey(bc.(*app.bookmarksCollection).bookmarks, name))
+//@ ensures implies(isnil(result), mapdel(bc.(*app.bookmarksCollection).bookmarks, name))
+//@ ensures implies(nonnil(result), mapsame(bc.(*app.bookmarksCollection).bookmarks))
+
+// clear: leaves an empty collection; never fails.
+//@ func (*BookmarksClear).Run$1
+//@ requires typeis(bc, *app.bookmarksCollection)
+//@ noframe
+//@ ensures isnil(result) && mapisempty(bc.(*app.bookmarksCollection).bookmarks)
